@@ -232,8 +232,12 @@ public:
 			add_initial_gap(first_file_entry_pos);
 			added_initial_gap = true;
 		      }
-		    auto last_sec = catalogs[c][entry].last_sector();
-		    maybe_gap(last_sec+1, start_sec_of_next(c, entry));
+		    const DFS::CatalogEntry& ce(catalogs[c][entry]);
+		    // A zero-length file has a start sector but
+		    // occupies no sectors.
+		    const DFS::sector_count_type end_sec =
+		      ce.file_length() ? ce.last_sector() + 1 : ce.start_sector();
+		    maybe_gap(end_sec, start_sec_of_next(c, entry));
 		  }
 	      }
 	  }
